@@ -26,7 +26,7 @@ def cases(draw):
     role = draw(st.sampled_from(["client", "server"]))
     state = draw(st.sampled_from(["open", "open", "open", "closing", "wait-cea" if role == "client" else "server-closed"]))
     kind = draw(st.sampled_from(["mutation", "mutation", "misaddressed", "unknown-enumerator", "wrong-width", "short-host-ip",
-                                 "good+length0", "good+short-length", "good+garbage-header", "binary-user-name"]))
+                                 "good+length0", "good+short-length", "good+garbage-header", "binary-user-name", "stale-base-answer"]))
     mut = draw(c03.cases) if kind == "mutation" else None
     return {"kind": "live", "role": role, "state": state, "input": kind, "mut": mut, "cuts": draw(st.lists(st.integers(1, 600), max_size=3)),
             "hbh": draw(st.integers(1, 2**32 - 1))}
@@ -66,6 +66,8 @@ def build_input(case):
         ln = {"good+length0": 0, "good+short-length": 1 + case["hbh"] % 19, "good+garbage-header": 0xFFFFFF}[k]
         bad = bytes([1]) + ln.to_bytes(3, "big") + bytes([0x80, 0, 1, 0x3c]) + bytes(12)
         return good + bad, False
+    if k == "stale-base-answer":
+        return b"", True                   # built at run time from what the node has sent (see stale_base_answer)
     if k == "binary-user-name":
         return app_request(case["hbh"], 7, dest_realm=LOCAL["realm"], user=b"\xff\xfe\x00\x80name"), True
     if k == "short-host-ip":
@@ -76,12 +78,32 @@ def build_input(case):
     raise ValueError(k)
 
 
+def stale_base_answer(w, case):
+    """A well-formed base-protocol answer that echoes the End-to-End identifier of a request the node really sent, with a Hop-by-Hop
+    identifier that is not (or no longer) pending: a duplicated CEA/DWA/DPA, or one whose Hop-by-Hop field alone was damaged."""
+    from ..world import peer_cea, peer_dwa
+    reqs = [m for m in w._safe_sent() if m["flags"] & 0x80 and m["cmd"] in (257, 280, 282)]
+    if not reqs:
+        return b""
+    r = reqs[-1]
+    build = {257: peer_cea, 280: peer_dwa, 282: peer_dpa}[r["cmd"]]
+    variant = case["hbh"] % 3
+    if variant == 0 and r["cmd"] != 282:
+        # the genuine answer (if not given yet) followed by its duplicate
+        return build(r["hbh"], r["e2e"]) * 2
+    if variant == 1:
+        return build(r["hbh"] ^ 0x00010000, r["e2e"])
+    return build((r["hbh"] + 1) & 0xFFFFFFFF, r["e2e"]) + build(r["hbh"] ^ 0x80000000, r["e2e"])
+
+
 def run_one(case):
     info = {}
     data, framed = build_input(case)
     vs = []
     tag = f"{case['state']}/{case['input']}"
-    with World(role=case["role"], apps=["s6a"], max_steps=900000) as w:
+    stale = case["input"] == "stale-base-answer"
+    # a responder sends no request of its own until its watchdog period has passed: use a short one for that input
+    with World(role=case["role"], apps=["s6a"], max_steps=900000, watchdog=1 if stale and case["role"] == "server" else 30) as w:
         st_ = case["state"]
         if st_ == "wait-cea":
             w.net.connect_policy = "ack"
@@ -100,15 +122,21 @@ def run_one(case):
                 w.call("closer0", lambda: w.d.close())
                 w.run(lambda: any(m["cmd"] == 282 for m in w._safe_sent()), 5.0)
         got = []
+
+        def consume():
+            while True:
+                m = w.d.get_message()
+                if m is None:
+                    return
+                got.append(m.header.get_hop_by_hop())
         if st_ == "open":
-            def consume():
-                while True:
-                    m = w.d.get_message()
-                    if m is None:
-                        return
-                    got.append(m.header.get_hop_by_hop())
             w.call("consumer", consume)
         sock = w.sock
+        if stale:
+            if case["role"] == "server" and st_ == "open":
+                w.run(lambda: any(m["cmd"] == 280 and m["flags"] & 0x80 for m in w._safe_sent()), 3.0)
+            data = stale_base_answer(w, case)
+            info["stale_for"] = data[5:8].hex() if data else None
         # ---------------- inject
         cuts = sorted(set(c % max(1, len(data)) for c in case["cuts"])) if data else []
         w.feed(data, [c for c in cuts if 0 < c < len(data)])
@@ -138,6 +166,8 @@ def run_one(case):
                 if probe.dump() not in bytes(sock.outbox) and w.state() in ("I-Open", "R-Open"):
                     vs.append(V("a submitted message still reaches the socket", f"send-stuck/{tag}", ""))
             if framed and w.state() in ("I-Open", "R-Open"):
+                if st_ != "open":
+                    w.call("consumer", consume)         # the input itself completed the opening
                 w.feed(app_request(0x600D600D, 1, dest_realm=LOCAL["realm"]))
                 w.run(lambda: 0x600D600D in got, 5.0)
                 if 0x600D600D not in got:
